@@ -197,6 +197,35 @@ func asOverlappingEscalations(rng *rand.Rand) (*asScenario, []asStep) {
 	}
 	sc.Cfg.Decision["a"] = "escalate"
 	sc.Cfg.Decision["t"] = "resume"
+	if rng.Intn(4) == 0 {
+		// one-for-all Restart of a (which has a child, so its restart spans several turns) and b; a Kill aimed at a arrives
+		// while a waits for its child, before b has handled its own Restart: a terminates, b must come back
+		par := map[string]string{"t": "root", "a": "t", "b": "t", "c": "a"}
+		sc := &asScenario{Parent: par, Names: []string{"a", "b", "c", "t"}, Cfg: asConfig{Decision: map[string]string{}, Strategy: map[string]string{}}}
+		for _, n := range sc.Names {
+			sc.Cfg.Decision[n] = "restart"
+			sc.Cfg.Strategy[n] = "ofo"
+		}
+		sc.Cfg.Decision["t"] = []string{"restart", "grestart"}[rng.Intn(2)]
+		sc.Cfg.Strategy["t"] = "ofa"
+		steps := []asStep{{A: "spawn", X: "t"}, {A: "turn", X: "t"}, {A: "turn", X: "a"}, {A: "turn", X: "b"}, {A: "turn", X: "c"},
+			{A: "tell", X: "a", Op: "fail"}, {A: "turn", X: "a"}, {A: "turn", X: "t"}, {A: "turn", X: "a"},
+			{A: "kill", X: "a", Poison: rng.Intn(2) == 0}, {A: "turn", X: "a"}, {A: "random"}}
+		for i := 0; i < rng.Intn(3); i++ {
+			steps = append(steps, asStep{A: "tell", X: []string{"b", "t"}[rng.Intn(2)], Op: "nop"})
+		}
+		return sc, steps
+	}
+	if rng.Intn(4) == 0 {
+		// an actor that owns a Loop job fails and is resumed (directly, or after an escalation that ends in Resume): the
+		// job belongs to the state that Resume leaves intact
+		who := []string{"b", "c", "d"}[rng.Intn(3)] // b: t resumes; c, d: a escalates, t resumes
+		// (the owner asks its scheduler about the job after the failure has been dealt with, then it is poison-killed so
+		// that the ticks end)
+		steps := []asStep{{A: "spawn", X: "t"}, {A: "settle"}, {A: "tell", X: who, Op: "sched-loop"},
+			{A: "tell", X: who, Op: "fail"}, {A: "tell", X: who, Op: "jobs"}, {A: "kill", X: who, Poison: true}}
+		return sc, steps
+	}
 	steps := []asStep{{A: "spawn", X: "t"}}
 	if rng.Intn(2) == 0 {
 		steps = append(steps, asStep{A: "settle"})
@@ -648,7 +677,7 @@ func init() {
 		c.Add("traces_validated_against_impl", int64(res.Validated))
 	})
 	register("C08", func(c *core.Ctx) {
-		asCheck(c, asPlan{prop: "C08", monitors: []string{"SuperviseMon"}, mc: t3, gen: g3, ops: [][2]string{{"nop", ""}, {"nop", ""}, {"fail", ""}, {"tell", "@"}}, directed: asOverlappingEscalations,
+		asCheck(c, asPlan{prop: "C08", monitors: []string{"SuperviseMon", "StateMon"}, mc: t3, gen: g3, ops: [][2]string{{"nop", ""}, {"nop", ""}, {"fail", ""}, {"tell", "@"}}, directed: asOverlappingEscalations,
 			rule: base + "Judged by SuperviseMon."})
 	})
 	register("C05", func(c *core.Ctx) {
